@@ -337,6 +337,57 @@ fn main() {
             let _ = restrict;
             continue;
         }
+        if prop == "C11" {
+            // ---- every world's component against every world of the package: the stand-alone check,
+            // the specification (conformance by names inside one package) and the reference validator
+            let wnames: Vec<String> = p["worlds"].as_array().unwrap().iter().map(|w| w.as_str().unwrap().to_string()).collect();
+            let mut comps: Vec<Vec<u8>> = Vec::new();
+            for wname in &wnames {
+                let world = resolve.select_world(&[pkg], Some(wname)).expect("world");
+                let mut module = wit_component::dummy_module(&resolve, world, wit_parser::ManglingAndAbi::Standard32);
+                wit_component::embed_component_metadata(&mut module, &resolve, world, wit_component::StringEncoding::UTF8).expect("metadata");
+                comps.push(wit_component::ComponentEncoder::default().module(&module).expect("module").validate(true).encode().expect("component"));
+            }
+            for (ai, a) in wnames.iter().enumerate() {
+                for b in &wnames {
+                    worlds += 1;
+                    let want = sp["conf"][a.as_str()].as_array().map(|v| v.iter().any(|x| x == b)).unwrap_or(false);
+                    let got = guarded(|| -> Result<bool, String> {
+                        let mut types = Types::default();
+                        let wp = Package::from_bytes("wit", None, ref_bytes.clone(), &mut types).map_err(|e| format!("{e:#}"))?;
+                        let cp = Package::from_bytes("component", None, comps[ai].clone(), &mut types).map_err(|e| format!("{e:#}"))?;
+                        let top = &types[wp.ty()];
+                        let Some(ItemKind::Type(wac_types::Type::World(id))) = top.exports.get(b.as_str()) else { return Err("no such world".into()) };
+                        let Some(ItemKind::Component(w)) = types[*id].exports.values().next() else { return Err("wit package was not encoded properly".into()) };
+                        Ok(wac_types::validate_target(&types, *w, cp.ty()).is_ok())
+                    });
+                    match got {
+                        Err(pn) => emit(&mut so, "target_decl_panic", format!("validate_target panicked for component of `{a}` against world `{b}`: {pn}")),
+                        Ok(Err(e)) => emit(&mut so, "target_decl", format!("component of `{a}` against world `{b}`: {e}")),
+                        Ok(Ok(g)) => {
+                            if g != want {
+                                emit(&mut so, "target_decl", format!("validate_target says the component of world `{a}` {} world `{b}`; the specification says it {}",
+                                    if g { "conforms to" } else { "does not conform to" }, if want { "does" } else { "does not" }));
+                            }
+                        }
+                    }
+                    // the reference validator: component type of a <: world type b (resource-free packages)
+                    if sp["res"] == true {
+                        continue;
+                    }
+                    let t =wasmparser::Validator::new_with_features(wasmparser::WasmFeatures::all()).validate_all(&wrap(&[&comps[ai], &ref_bytes])).expect("wrapper");
+                    let tr = t.as_ref();
+                    let actual = ComponentEntityType::Component(comp_of(&tr, "c0").unwrap());
+                    let (_, inner) = declared(&tr, comp_of(&tr, "c1").unwrap(), b).expect("world declared");
+                    let r = ComponentEntityType::is_subtype_of(&actual, tr, &inner, tr);
+                    if r != want {
+                        spec_vs_ref += 1;
+                        eprintln!("SPEC-VS-REFERENCE package {id}: component of `{a}` <: world `{b}` is {r} for wasmparser, the specification says {want}");
+                    }
+                }
+            }
+            continue;
+        }
         // ---------------------------------------------------------------- C08
         for wname in p["worlds"].as_array().unwrap() {
             let wname = wname.as_str().unwrap();
